@@ -39,7 +39,7 @@ PROPS = {
     "C15": {
         "props": "TrackVerif.TA.PropsC15",
         "streams": [("TA", 2000, 30000)],
-        "clauses": ["ta.no_panic", "ta.no_row_loss"],
+        "clauses": ["ta.malformed_accepted", "ta.no_panic", "ta.no_row_loss"],
         "rule": "PRNG(seed): 90% damaged logs (1..3 mutations of a well-formed log: deleted/duplicated field, truncated line, colon dropped, "
                 "value-less comments, blank line, stray quote, unparsable value, unknown column, random bytes, overlong line, duplicated/deleted line, "
                 "swapped characters), 10% well-formed; fixed corpus of past crashers first; non-trivial = >= 3 lines; distinct by SHA-1",
